@@ -265,6 +265,34 @@ Check C12_debversion_is_reference_when_safe :
   ver_cmp x y = Ok (vcmp x y) /\ ver_eq x y = Ok (veq x y).
 Print Assumptions C12_debversion_is_reference_when_safe.
 
+(* printing a version that was read from text and reading it again gives the same version
+   (epochs, ':' and '-' inside upstream, leading zeros in the epoch, ... all included) ... *)
+Theorem C12_version_print_read :
+  forall text v, parse_version text = Some v -> parse_version (show_version v) = Some v.
+Proof. exact parse_show_version. Qed.
+Check C12_version_print_read :
+  forall text v, parse_version text = Some v -> parse_version (show_version v) = Some v.
+Print Assumptions C12_version_print_read.
+
+(* ... so C12_constructed and C12_set_version apply to every field whose versions were read from
+   text: this is how versions with an epoch reach the lossless evaluator. *)
+Theorem C12_debian_constructed :
+  forall f : list (list (rel version)),
+  Forall (Forall (fun r => match r_ver r with
+                           | Some (_, v) => exists text, parse_version text = Some v
+                           | None => True end)) f ->
+  (exists t, deb_build_field f = Ok t /\ tree_field version parse_version t = Ok f) /\
+  (exists t, deb_sv_field f = Ok t /\ tree_field version parse_version t = Ok f).
+Proof. exact deb_constructed. Qed.
+Check C12_debian_constructed :
+  forall f : list (list (rel version)),
+  Forall (Forall (fun r => match r_ver r with
+                           | Some (_, v) => exists text, parse_version text = Some v
+                           | None => True end)) f ->
+  (exists t, deb_build_field f = Ok t /\ tree_field version parse_version t = Ok f) /\
+  (exists t, deb_sv_field f = Ok t /\ tree_field version parse_version t = Ok f).
+Print Assumptions C12_debian_constructed.
+
 (* hence, for the code as linked: *)
 Theorem C12_debian :
   forall (t : rtree) (f : list (list (rel version))) (pv : lookup version),
